@@ -133,6 +133,7 @@ type Contracts struct {
 	EnvShrink [][2]string
 	Confined map[string]string // heap key -> token
 	Lemmas   []*Clause
+	PkgImmutable []*Clause // each: Src = variable name, Tags = properties resting on it
 }
 
 func newContracts() *Contracts {
@@ -142,7 +143,7 @@ func newContracts() *Contracts {
 }
 
 var topKeywords = map[string]bool{"func": true, "pred": true, "def": true, "fun": true, "axiom": true, "ghost": true, "lockinv": true,
-	"owned": true, "trusted": true, "immutable": true, "alloc": true, "lockorder": true, "chan": true, "env": true, "confined": true, "lemma": true}
+	"owned": true, "trusted": true, "immutable": true, "alloc": true, "lockorder": true, "chan": true, "env": true, "confined": true, "lemma": true, "pkgimmutable": true}
 var fnKeywords = map[string]bool{"requires": true, "ensures": true, "loop": true, "invariant": true, "decreases": true,
 	"step": true, "let": true, "mode": true, "modifies": true, "ghostvar": true, "mathint": true, "thread": true,
 	"pure": true, "unroll": true, "noinline": true, "consumes": true, "opt": true, "effect": true, "atcall": true, "init": true, "exit": true, "writes": true}
@@ -442,6 +443,14 @@ func (cs *Contracts) loadFile(path string) error {
 			}
 			name := strings.TrimSpace(d.text[:j])
 			cs.SpecFuns[name] = &SpecFunDef{Name: name, Params: parseParams(d.text[j+1 : k]), Ret: strings.TrimSpace(d.text[k+1:])}
+			cur, curLockInv = nil, nil
+		case "pkgimmutable":
+			// pkgimmutable <var> [tags] "label"
+			c, err := parseClause(d, d.text)
+			if err != nil {
+				return err
+			}
+			cs.PkgImmutable = append(cs.PkgImmutable, c)
 			cur, curLockInv = nil, nil
 		case "lemma":
 			c, err := parseClause(d, d.text)
